@@ -352,6 +352,10 @@ def check(case, log):
           wk = [a for a in ix.acts if a[4] == "wake" and a[5] == tid and a[6] and a[0] > rseq]
           if wk:
             fail("wake-lost", "%s blocked at %s, was woken by %s at %s and never ran again" % (tid, rtime, wk[0][1], wk[0][3]))
+        elif kind == "badop" and "/" in tid:
+          fail("subtask-op-failure-lost", "%s (a task_function sub-task) yielded a blocking operation whose execute() raised (%s) at %s: the "
+               "sub-task was de-scheduled and its caller %s is left blocked for ever -- the failure reaches nobody" % (
+                   tid, op.get("how"), rtime, tid.rsplit("/", 1)[0]))
         elif kind == "rfop":
           calls = ix.rfs.get((tid, pc), [])
           last_t = calls[-1][2] if calls else rtime
@@ -483,6 +487,12 @@ def check(case, log):
         d = op.get("delay") or 0
         if d and wtime < rtime + d * len(script):
           fail("resumed-early", "%s: %r requested at %s resumed at %s, before %s" % (tid, op, rtime, wtime, rtime + d * len(script)), op=kind)
+      elif kind == "badop" and "/" in tid:
+        # in a sub-task the failure of the operation has to come back as an exception (and travel on to the caller if not caught)
+        wantexc = "RuntimeError" if op.get("how") == "release-unheld" else "OpError"
+        if not (isinstance(val, dict) and "exc" in val and val["exc"][0] == wantexc):
+          fail("subtask-op-failure-wrong", "%s: the blocking operation (%s) raised %s in execute() but the sub-task received %r" % (
+              tid, op.get("how"), wantexc, val))
       elif kind == "badop":
         fail("resumed-after-failed-operation", "%s yielded a blocking operation whose execute() raised (%s) at %s -- the scheduler reports it "
              "as de-scheduled -- and was resumed at %s all the same" % (tid, op.get("how"), rtime, wtime), how=op.get("how"))
